@@ -445,6 +445,10 @@ pub fn sketch_worker(a: &WorkerArgs) -> WorkerResult {
 
     if res.violation.is_none() {
         let result = runner.run(&strategy, |case| {
+            if crate::budget::exhausted() && !acc.borrow().failed {
+                crate::budget::skip();
+                return Ok(());
+            }
             let counting = !acc.borrow().failed;
             if counting {
                 let _ = std::fs::write(&inflight, serde_json::to_vec(&case).unwrap());
